@@ -261,6 +261,79 @@ func runC16(c *engine.Ctx) {
 			"no enqueue path signals outgoing work exactly when the build step leaves a non-empty builder")
 	}
 
+	// R3d: a consumed work token obliges an extract attempt: whoever receives from the work channel must reach the
+	// extract step (directly or through a callee that always reaches it) before waiting again or returning —
+	// otherwise the token is lost and "signalled iff builders remain" breaks (the shutdown drain would be skipped)
+	if workF := c.P.Field("messagequeue", "MessageQueue", "outgoingWork"); workF != nil {
+		alwaysExtracts := func(g *ssa.Function) bool {
+			if g == nil || g.Blocks == nil {
+				return false
+			}
+			ok, _ := engine.MustReachFromEntry(g, isExtract, nil)
+			return ok
+		}
+		reachesExtract := func(in ssa.Instruction) bool {
+			if isExtract(in) {
+				return true
+			}
+			if cc, ok := in.(*ssa.Call); ok {
+				return alwaysExtracts(cc.Call.StaticCallee())
+			}
+			return false
+		}
+		for _, f := range m.fns {
+			engine.Instrs(f, func(in ssa.Instruction) {
+				sel, ok := in.(*ssa.Select)
+				if !ok {
+					return
+				}
+				for k, st := range sel.States {
+					if st.Dir != types.RecvOnly || !isLoadOfField(st.Chan, workF) {
+						continue
+					}
+					// the block taken for case k
+					var start *ssa.BasicBlock
+					for _, b := range f.Blocks {
+						ifi, isIf := b.Instrs[len(b.Instrs)-1].(*ssa.If)
+						if !isIf {
+							continue
+						}
+						bo, isB := ifi.Cond.(*ssa.BinOp)
+						if !isB || bo.Op != token.EQL {
+							continue
+						}
+						ex, isEx := bo.X.(*ssa.Extract)
+						if !isEx || ex.Tuple != ssa.Value(sel) || ex.Index != 0 {
+							continue
+						}
+						if n, isK := engine.ConstInt(bo.Y); isK && int(n) == k {
+							start = b.Succs[0]
+						}
+					}
+					if start == nil {
+						c.Undecided(r3, engine.FuncName(f)+"|token-consumer", sel.Pos(), "cannot locate the case block of the work-token receive")
+						continue
+					}
+					isSelect := func(x ssa.Instruction) bool { _, s := x.(*ssa.Select); return s }
+					// must reach an extract before the next select or a return
+					okT := true
+					if r, _ := engine.CanReachFromBlock(start, func(x ssa.Instruction) bool {
+						if isSelect(x) {
+							return true
+						}
+						_, isRet := x.(*ssa.Return)
+						return isRet
+					}, reachesExtract); r {
+						okT = false
+					}
+					c.Decide(r3, fmt.Sprintf("%s|token-consumer#%d", engine.FuncName(f), k), sel.Pos(), okT,
+						"a consumed work token always leads to an extract attempt (which re-signals when builders remain)",
+						"a work token can be consumed without an extract attempt: queued builders are left with no signal, and the shutdown drain (which runs only when signalled) skips them — they are never reported sent or failed")
+				}
+			})
+		}
+	}
+
 	// R4: typestate on the builders list
 	lc := engine.NewLockChecker(c.P)
 	nApp := 0
